@@ -102,13 +102,17 @@ def clauses_structure(c, H, P, timing=False, lifecycle=True, order=True):
         # iterations
         for j, it in enumerate(sg.iters):
             gidx += 1
+            if lifecycle:
+                # a refresh whose control word names another mode must end this mode (its components are
+                # disabled before anything of the next mode runs): no iteration of `mode` under another word
+                c.prove(f"{P}.leave mode-left-when-ds-word-changes", it.mode == mode, info=dict(segment=si, mode=mode, ds=it.mode))
             if order:
                 c.reach(f"iteration-{mode}")
                 c.prove(f"{P}.order iteration-mode-matches-ds", it.mode == mode, info=dict(segment=si, mode=mode, ds=it.mode))
                 check_iteration(c, H, P, it, mode, auto_active, gidx)
             if timing and sg.delay_t0 is not None:
                 # grid: the k-th wait of this mode returns at t0 + k*P (never earlier), exactly if the body was done
-                g = sg.delay_t0 + (j + 1) * PERIOD_US
+                g = sg.delay_t0 + (j + 1) * H.period_us
                 c.reach("timing-grid")
                 c.prove(f"{P}.timing never-early", it.wait_end >= g, info=dict(segment=si, k=j + 1))
                 c.prove(f"{P}.timing exact-when-body-done", s_eq(it.wait_end, g), when=(it.body_end <= g), info=dict(segment=si, k=j + 1))
